@@ -49,9 +49,6 @@ CORPUS = os.path.join(fw.VERIF, "corpus", "C12")
 PROBES = [
     ("abbr-static-leak", {"m.emb": "struct Foo:\n  0 [+1]  UInt  apple (a)\nstruct Bar:\n  0 [+1]  UInt  x\n  let y = Foo.a\n"},
      "resolver binds Foo.a to Foo.apple; the full compiler must still reject the module"),
-    ("import-alias-as-field", {"m.emb": "import \"o.emb\" as imp\nstruct Foo:\n  0 [+1]  UInt  x\n  let a = imp\n",
-                               "o.emb": "struct Baz:\n  0 [+1]  UInt  q\n"}, "crash"),
-    ("module-attribute-reference", {"m.emb": "[foo: Bar.BAZ]\nenum Bar:\n  BAZ = 1\n"}, "crash"),
     ("anonymous-bits-in-inline-struct", {"m.emb": "struct Foo:\n  0 [+4]  struct bar:\n    0 [+1]  bits:\n      0 [+1]  Flag  x\n"
                                                   "    1 [+1]  UInt  y\n"}, "crash"),
 ]
@@ -155,9 +152,11 @@ def prepare(ctx, case):
         return False
     case.ranks = anon_ranks(ir)
     case.ob = scope_x.observe(ir, tr)
-    case.expected = case.ob.term()
     case.status = case.ob.summary()
     ctx.count("impl:" + case.status)
+    if case.ob.crash and case.ob.crash[0] == "resolve_symbols":
+        return False        # nothing to compare: the pass raised (recorded as a crash by the caller)
+    case.expected = case.ob.term()
     return True
 
 
@@ -417,9 +416,7 @@ def run(ctx):
                 "distinct by module text" % len(gen_scope.FAULTS))
     ctx.trusted = ["Coq 8.16.1 kernel, vm_compute", "harness/scope_x.py (translator)", "harness/gen_scope.py (generator and oracle)",
                    "harness/props/c12.py", "CPython 3.12 running /repo's front end up to resolve_field_references"]
-    ctx.assumptions = ["references at module level (outside every type definition) are outside the model: the real resolver "
-                       "crashes on them (finding resolver-crash-module-attribute-reference)",
-                       "the order in which references are visited is read from compiler.util.traverse_ir"]
+    ctx.assumptions = ["the order in which references are visited is read from compiler.util.traverse_ir"]
     ctx.audit()
     ctx.check_theorems("EmbossV.Scope.Properties_C12", "Scope/Properties_C12.v", expect_min=20)
 
